@@ -361,14 +361,16 @@ CatRefs(rs, i) == IF i > Len(rs) THEN "" ELSE RefSeg(rs[i]).d \o CatRefs(rs, i +
 (* commitBlock up to `go PutB(block)` *)
 CommitStart ==
     /\ fg.pc = "flush" /\ fg.todo # <<>>
-    /\ LET rs == Head(fg.todo)
+    /\ \E ti \in 1 .. Len(fg.todo) :        \* the commitBlock goroutines of one flush run concurrently: any order
+       LET rs == fg.todo[ti]
+           rest == SubSeq(fg.todo, 1, ti - 1) \o SubSeq(fg.todo, ti + 1, Len(fg.todo))
            busy == \E i \in 1 .. Len(rs) : RefSeg(rs[i]).fl # 0 /\ Live(RefSeg(rs[i]).fl)
            t == FreshTok
            offs == Offsets(rs, 1, 0) IN
        \/ \* async: another flush of one of the segments is unfinished -> skip the block;
           \* sync after an error: the context is cancelled, the block may be skipped
           /\ (~fg.sync /\ busy) \/ (fg.sync /\ fg.err)
-          /\ fg' = [fg EXCEPT !.todo = Tail(@)]
+          /\ fg' = [fg EXCEPT !.todo = rest]
           /\ UNCHANGED <<segs, puts, thr, nputs>>
        \/ /\ fg.sync \/ ~busy
           /\ thr < cfg.W
@@ -382,7 +384,7 @@ CommitStart ==
                                                                  o |-> offs[j], len |-> SegLen(RefSeg(rs[j]))]],
                                  blk |-> 0, next |-> 1]}
           /\ thr' = thr + 1 /\ nputs' = nputs + 1
-          /\ fg' = [fg EXCEPT !.todo = Tail(@), !.mine = @ \cup {t}]
+          /\ fg' = [fg EXCEPT !.todo = rest, !.mine = @ \cup {t}]
     /\ UNCHANGED <<cvars, cfg, size, ptr, blocks, nops, hazard, saved, hist>>
 
 FlushEnd ==
@@ -440,7 +442,10 @@ BgFinish(t) ==
                            ELSE p.st = "ok" /\ same IN
             /\ (p.st = "fail" /\ p.kind = "async") \/ LockFree(r.f)       \* a failed async commit takes no lock
             /\ segs' = IF replace
-                       THEN [segs EXCEPT ![r.f][r.idx + 1] = [k |-> "s", blk |-> p.blk, o |-> r.o, n |-> Len(ss[r.idx + 1].d)]]
+                       THEN [segs EXCEPT ![r.f][r.idx + 1] =
+                               [k |-> "s", blk |-> p.blk, o |-> r.o,
+                                n |-> IF p.kind = "prune" THEN r.len           \* prune: len(buf) as captured at the start
+                                      ELSE Len(ss[r.idx + 1].d)]]              \* async commit: len of the current buffer
                        ELSE segs
             /\ puts' = IF last THEN puts \ {p} ELSE (puts \ {p}) \cup {[p EXCEPT !.next = @ + 1]}
     /\ UNCHANGED <<cvars, cfg, size, ptr, fg, blocks, thr, nops, nputs, hazard, saved, hist>>
@@ -464,13 +469,13 @@ FairSpec == Spec /\ WF_vars(Next)
 
 -----------------------------------------------------------------------------
 (* Design-level checks *)
-Refines == [][ \/ \E h \in Hs, off \in 0 .. MaxSize : C!Seek(h, off, 0, off, TRUE)
+Refines == [][ \/ UNCHANGED cvars
+               \/ \E h \in Hs, off \in 0 .. MaxSize : C!Seek(h, off, 0, off, TRUE)
                \/ \E h \in Hs, len \in 1 .. 2, res \in {"nil", "eof"} :
                      \E n \in 0 .. len : /\ handles[h].off + n <= Len(nodes[handles[h].ino].d)
                                         /\ C!Read(h, len, SubSeq(nodes[handles[h].ino].d, handles[h].off + 1, handles[h].off + n), res)
                \/ \E h \in Hs, n \in 0 .. MaxSize : C!Truncate(h, n, TRUE)
-               \/ \E h \in Hs, d \in WriteDatas : C!Write(h, d, Len(d), TRUE)
-               \/ UNCHANGED cvars ]_vars
+               \/ \E h \in Hs, d \in WriteDatas : C!Write(h, d, Len(d), TRUE) ]_vars
 
 Quiet == fg.pc \in {"idle", "flush"}
 ContentOK == Quiet => \A f \in Files : /\ Content(f) = nodes[Ino(f)].d
